@@ -51,6 +51,8 @@ Trusted: nothing beyond the definitions of `Spec.GreedyValid`, `Spec.entry`, `Sp
 -/
 import Kodama.Lemmas.SpecPerm
 import Kodama.Lemmas.SpecUnique
+import Kodama.Lemmas.FieldInstances
+import Kodama.Props.C03
 namespace Kodama
 open Spec
 variable {α : Type} [Num α]
@@ -235,5 +237,112 @@ example : GreedyValid .single 3 exData [⟨0, 2, 2, 2⟩, ⟨1, 3, 5, 3⟩] :=
 
 end NonVacuity
 
+
+/-! ## EXACT ARITHMETIC: `primitive_with` is permutation-equivariant on tie-free input
+## (appended section)
+
+Scope.  Exact arithmetic ONLY: `K` a linearly ordered field whose `Num K` instance computes the field
+operations and has no NaN (`ExactLaws K`, `Lemmas/FieldInstances.lean`: `fieldNum K`,
+`fieldNumWith K sq`).  IEEE floats are not a field; the float gap is measured by the oracles.
+
+Entry point: `primitive_with` (model `primitiveWith`), called twice — on `data` and on the renumbered
+matrix `data'` — with arbitrary (possibly different) build modes and prior states; all seven methods;
+both matrices of valid shape `2 ≤ n < 2^31`, `2·len = n(n-1)`.
+
+Hypotheses: `IsPerm n π ρ`; `hperm` (`data'` is `data` renumbered by `π`, characterised entrywise as
+in `C11_spec`); tie-freeness — in `C11_primitive` of ANY greedy-valid reference run `steps₀` of
+`data`; in `C11_primitive_self` of the run of either returned dendrogram (no reference needed).
+
+Conclusion: both calls return; the steps returned on `data` are the steps returned on `data'`
+relabelled by `σ π n` (`mapStep`: smaller label first); hence same heights, same sizes, and the leaf
+set of every internal label `n+i` in the first is the `π`-image of its leaf set in the second.
+(`C03_primitive_exact` twice + `C11_spec_unique` / `C11_spec_unique'`.)  With ties two greedy runs may
+legitimately differ, so no such statement holds without the hypothesis.
+-/
+
+section primitive
+variable {K : Type} [Field K] [LinearOrder K] [IsStrictOrderedRing K] [Num K]
+
+/-- **C11 for `primitive_with`, exact arithmetic, tie-free input.** -/
+theorem C11_primitive (E : ExactLaws K) (chk chk' : Bool) (m : Method) (st st' : State K)
+    (d d' : Dendrogram K) (data data' : Array K) (n : Nat) (h2 : 2 ≤ n) (hs : n < 2147483648)
+    (hl : 2 * data.size = n * (n - 1)) (hl' : 2 * data'.size = n * (n - 1))
+    {π ρ : Nat → Nat} (hπ : IsPerm n π ρ)
+    (hperm : ∀ i j, i < n → j < n →
+      entry n data' Num.infinity i j = entry n data Num.infinity (π i) (π j))
+    (steps₀ : List (Step K)) (h₀ : GreedyValid m n data steps₀)
+    (ht : TieFreeFrom m (init m n data) steps₀) :
+    ∃ s₁ e M₁ s₂ e' M₂,
+      primitiveWith chk m st d data n = .ok (s₁, e, M₁) ∧
+      primitiveWith chk' m st' d' data' n = .ok (s₂, e', M₂) ∧
+      e.steps.toList = e'.steps.toList.map (mapStep (σ π n)) ∧
+      e.steps.toList.map (·.d) = e'.steps.toList.map (·.d) ∧
+      e.steps.toList.map (·.size) = e'.steps.toList.map (·.size) ∧
+      ∀ i, (leaves n e.steps.toList e.steps.toList.length (n + i)).Perm
+        ((leaves n e'.steps.toList e'.steps.toList.length (n + i)).map π) := by
+  obtain ⟨s₁, e, M₁, hr, hg⟩ := C03_primitive_exact E chk m st d data n h2 hs hl
+  obtain ⟨s₂, e', M₂, hr', hg'⟩ := C03_primitive_exact E chk' m st' d' data' n h2 hs hl'
+  have he : steps₀ = e.steps.toList := greedyFrom_unique _ steps₀ _ (h₀.1.trans hg.1.symm) h₀.2 hg.2 ht
+  subst he
+  exact ⟨s₁, e, M₁, s₂, e', M₂, hr, hr', C11_spec_unique hπ (E.field.lwSymm m) hperm hg' hg ht⟩
+
+/-- The same with the tie-freeness hypothesis on the run of either returned dendrogram. -/
+theorem C11_primitive_self (E : ExactLaws K) (chk chk' : Bool) (m : Method) (st st' : State K)
+    (d d' : Dendrogram K) (data data' : Array K) (n : Nat) (h2 : 2 ≤ n) (hs : n < 2147483648)
+    (hl : 2 * data.size = n * (n - 1)) (hl' : 2 * data'.size = n * (n - 1))
+    {π ρ : Nat → Nat} (hπ : IsPerm n π ρ)
+    (hperm : ∀ i j, i < n → j < n →
+      entry n data' Num.infinity i j = entry n data Num.infinity (π i) (π j)) :
+    ∃ s₁ e M₁ s₂ e' M₂,
+      primitiveWith chk m st d data n = .ok (s₁, e, M₁) ∧
+      primitiveWith chk' m st' d' data' n = .ok (s₂, e', M₂) ∧
+      (TieFreeFrom m (init m n data) e.steps.toList ∨
+          TieFreeFrom m (init m n data') e'.steps.toList →
+        e.steps.toList = e'.steps.toList.map (mapStep (σ π n)) ∧
+        e.steps.toList.map (·.d) = e'.steps.toList.map (·.d) ∧
+        e.steps.toList.map (·.size) = e'.steps.toList.map (·.size) ∧
+        ∀ i, (leaves n e.steps.toList e.steps.toList.length (n + i)).Perm
+          ((leaves n e'.steps.toList e'.steps.toList.length (n + i)).map π)) := by
+  obtain ⟨s₁, e, M₁, hr, hg⟩ := C03_primitive_exact E chk m st d data n h2 hs hl
+  obtain ⟨s₂, e', M₂, hr', hg'⟩ := C03_primitive_exact E chk' m st' d' data' n h2 hs hl'
+  refine ⟨s₁, e, M₁, s₂, e', M₂, hr, hr', ?_⟩
+  rintro (ht | ht)
+  · exact C11_spec_unique hπ (E.field.lwSymm m) hperm hg' hg ht
+  · exact C11_spec_unique' hπ (E.field.lwSymm m) hperm hg' ht hg
+
+end primitive
+
+/-! ### Non-vacuity over `ℚ` -/
+
+section primitiveExample
+@[reducible] private def qNum : Num ℚ := fieldNum ℚ
+attribute [local instance] qNum
+
+/-- `d(0,1) = 5, d(0,2) = 2, d(1,2) = 9` and its renumbering by the 3-cycle `cyc`. -/
+private def exQ : Array ℚ := #[5, 2, 9]
+private def exQ' : Array ℚ := #[9, 5, 2]
+private def exQSteps : List (Step ℚ) := [⟨0, 2, 2, 2⟩, ⟨1, 3, 5, 3⟩]
+
+private theorem exQ_hperm : ∀ i j, i < 3 → j < 3 →
+    entry 3 exQ' Num.infinity i j = entry 3 exQ Num.infinity (cyc i) (cyc j) := by
+  intro i j hi hj
+  have h : i = 0 ∨ i = 1 ∨ i = 2 := by omega
+  have h' : j = 0 ∨ j = 1 ∨ j = 2 := by omega
+  rcases h with rfl | rfl | rfl <;> rcases h' with rfl | rfl | rfl <;> decide
+
+/-- All hypotheses of `C11_primitive` hold of a concrete rational instance with a non-trivial
+permutation (single linkage; different build modes for the two calls). -/
+example : ∃ s₁ e M₁ s₂ e' M₂,
+    primitiveWith true .single State.new (Dendrogram.new 0) exQ 3 = .ok (s₁, e, M₁) ∧
+    primitiveWith false .single State.new (Dendrogram.new 3) exQ' 3 = .ok (s₂, e', M₂) ∧
+    e.steps.toList = e'.steps.toList.map (mapStep (σ cyc 3)) ∧
+    e.steps.toList.map (·.d) = e'.steps.toList.map (·.d) ∧
+    e.steps.toList.map (·.size) = e'.steps.toList.map (·.size) ∧
+    ∀ i, (leaves 3 e.steps.toList e.steps.toList.length (3 + i)).Perm
+      ((leaves 3 e'.steps.toList e'.steps.toList.length (3 + i)).map cyc) :=
+  C11_primitive (exactLaws_fieldNum ℚ) true false .single _ _ _ _ exQ exQ' 3 (by decide)
+    (by decide) (by decide) (by decide) cyc_isPerm exQ_hperm exQSteps (by decide) (by decide)
+
+end primitiveExample
 
 end Kodama
